@@ -85,7 +85,7 @@ class Runner:
         # long jobs first when a weight is given
         order.sort(key=lambda i: -specs[i].get("weight", 1))
         sym_pool = ctx.Pool(nproc, initializer=_init_sym, maxtasksperchild=8)
-        plain_pool = ctx.Pool(max(2, nproc // 4), initializer=_init_plain, maxtasksperchild=50)
+        plain_pool = ctx.Pool(max(4, nproc // 2), initializer=_init_plain, maxtasksperchild=50)
         default_budget = 200 if self.tier == "quick" else 3000
         for sp in specs:
             if sp.get("time_budget") is None:
@@ -114,8 +114,15 @@ class Runner:
                     envs = [l["env"] for l in res["leaves"] if l["kind"] in ("return", "raise") and not l.get("unrepresentable")]
                     spot = [l["env"] for l in res["leaves"] if l["kind"] in ("band", "intractable", "budget", "concretized") and not l.get("unrepresentable")]
                     res["_spot_envs"] = spot
-                    task = dict(spec=res["spec"], envs=envs, violations=res["violations"], spot_envs=spot)
-                    replay_pend.append((res, plain_pool.apply_async(jobs.run_replay, (task,))))
+                    # replay in chunks so that one big job does not serialise on a single replay worker
+                    CH = 40
+                    chunks = []
+                    for k in range(0, max(len(envs), 1), CH):
+                        chunks.append(dict(spec=res["spec"], envs=envs[k : k + CH], violations=[], spot_envs=[]))
+                    for k in range(0, len(spot), CH):
+                        chunks.append(dict(spec=res["spec"], envs=[], violations=[], spot_envs=spot[k : k + CH]))
+                    chunks.append(dict(spec=res["spec"], envs=[], violations=res["violations"], spot_envs=[]))
+                    replay_pend.append((res, [plain_pool.apply_async(jobs.run_replay, (t,)) for t in chunks]))
             if t_end and time.time() > t_end:
                 for i in pend:
                     if i not in done:
@@ -126,16 +133,24 @@ class Runner:
                 time.sleep(0.05)
         sym_pool.close() if not not_run else None
         self.not_run = not_run
-        for res, ar in replay_pend:
-            try:
-                rep = ar.get(timeout=1800)
-            except Exception as e:
-                self.harness_errors.append(("replay failed", res["spec"], repr(e)))
-                continue
-            if not rep.get("ok"):
-                self.harness_errors.append(("replay failed", res["spec"], rep.get("error")))
-                continue
-            self._merge_replay(res, rep)
+        for res, ars in replay_pend:
+            merged = dict(ok=True, digests=[], confirms=[], spots=[])
+            failed = False
+            for ar in ars:
+                try:
+                    rep = ar.get(timeout=3600)
+                except Exception as e:
+                    self.harness_errors.append(("replay failed", res["spec"], repr(e)))
+                    failed = True
+                    break
+                if not rep.get("ok"):
+                    self.harness_errors.append(("replay failed", res["spec"], rep.get("error")))
+                    failed = True
+                    break
+                for k in ("digests", "confirms", "spots"):
+                    merged[k] += rep.get(k, [])
+            if not failed:
+                self._merge_replay(res, merged)
         plain_pool.terminate()
         sym_pool.terminate()
 
